@@ -45,7 +45,14 @@ def permute_fragments(rng, frag_string):
     out = []
     for b in blocks:
         items = b[1:-1].split(',')
+        orig = list(items)
         rng.shuffle(items)
+        # several definitions under ONE name keep their relative order (the first one is the one that counts)
+        name = lambda it: it.split('=', 1)[0]
+        queues = {}
+        for it in orig:
+            queues.setdefault(name(it), []).append(it)
+        items = [queues[name(it)].pop(0) for it in items]
         out.append('{' + ','.join(items) + '}')
     return '.'.join(out)
 
